@@ -198,6 +198,10 @@ def _pin_table(ctx, cfg):
     cols[case("peptide")] = ["PEP%d" % i for i in range(n)]
     cols[case("proteins")] = ["PROT%d" % i for i in range(n)]
     order = list(cols)
+    if cfg.get("feature_last") and feats:
+        # "any number and order of feature columns": the last feature stands AFTER the protein column
+        order.remove(feats[-1])
+        order.append(feats[-1])
     rot = cfg.get("rotate", 0) % len(order)
     order = order[rot:] + order[:rot]
     df = sympd.DataFrame({c: cols[c] for c in order})
@@ -308,12 +312,14 @@ def harnesses(tier):
         hs.append(Harness("nascan[rows=2,features=2,%s]" % ("with ids" if with_ids else "features only"), dict(rows=2, features=2, encoding="pm1", with_ids=with_ids), sym_nascan, real="nascan",
                           functions=[P.drop_missing_values_and_fill_spectra_dataframe], stubs=stubs, sample_rate=0.5))
     reads = [dict(rows=2, features=2, encoding="pm1", optional=["expmass"], colchunk=[2, 6], casing=2),
+             dict(rows=1, features=2, encoding="pm1", optional=[], colchunk=[2, 5], casing=2, feature_last=True),
              dict(rows=2, features=1, encoding="zero", optional=[], colchunk=[2, 4], casing=0, rotate=3),
              dict(rows=1, features=2, encoding="bool", optional=["expmass", "ret_time", "filename", "calcmass"], colchunk=[3, 7], casing=1, suffix=".parquet")]
     if tier == "thorough":
         reads += [dict(rows=2, features=3, encoding="pm1", optional=["expmass", "ret_time"], colchunk=[2, 8], casing=3, rotate=2, sched=True),
                   dict(rows=3, features=2, encoding="pm1", optional=["filename"], colchunk=[2, 5], casing=2, sched=True),
-                  dict(rows=2, features=4, encoding="zero", optional=["expmass"], colchunk=[2, 8], casing=2)]
+                  dict(rows=2, features=4, encoding="zero", optional=["expmass"], colchunk=[2, 8], casing=2),
+                  dict(rows=2, features=3, encoding="bool", optional=["filename"], colchunk=[2, 6], casing=1, feature_last=True, rotate=2)]
     for cfg in reads:
         hs.append(Harness("read_percolator[%s]" % ",".join("%s=%s" % kv for kv in cfg.items()), cfg, sym_read, real="read",
                           functions=[P.read_percolator, P.create_chunks_with_identifier, P.drop_missing_values_and_fill_spectra_dataframe, U.convert_targets_column, H.find_column, D.OnDiskPsmDataset.__init__],
